@@ -16,12 +16,13 @@ package gohbase
 // Race detector on. Events go to rl_trace.ndjson for TLC (Trace_RequestLoop).
 
 import (
-	"io"
 	"bytes"
 	"context"
 	"fmt"
+	"io"
 	"math/rand"
 	"os"
+	"runtime"
 	"sort"
 	"strconv"
 	"strings"
@@ -105,6 +106,7 @@ func (e *rlEnv) goPut(prefix string) *rlCall {
 	}()
 	return cc
 }
+
 // goOp: the other single-row calls (the request loop is the same, the entry points are not)
 func (e *rlEnv) goOp(kind, prefix string) *rlCall {
 	cc := &rlCall{id: e.newID(), kind: kind}
@@ -224,7 +226,7 @@ func rlJavaClass(err error) string {
 func (e *rlEnv) flush(w *verifsim.NDJSONWriter, name string, withAttempts bool) {
 	w.Write(map[string]any{"ev": "reset", "scenario": name})
 	type key struct{ conn, id int }
-	open := map[key]string{} // outstanding request -> call id
+	open := map[key]string{}   // outstanding request -> call id
 	deadConn := map[int]bool{} // the client has given this connection up: later answers on it are never seen
 	fatal := map[string]bool{"org.apache.hadoop.hbase.regionserver.RegionServerAbortedException": true,
 		"org.apache.hadoop.hbase.regionserver.RegionServerStoppedException": true,
@@ -587,10 +589,29 @@ func TestVerifRequestLoop(t *testing.T) {
 					case <-time.After(5 * time.Second): // (not everybody came: go on alone)
 					}
 				})
+				// (Outage.tla, OneEstablisher: at most one establisher of a region AT A TIME. A reporter that is scheduled late may
+				// find the region available again - the first establisher has finished - and start a second one, one after the
+				// other: that is a second outage as far as the client can tell. Establishers are told apart by their goroutine
+				// and count from their first step to the step before they release the region.)
+				var estMu sync.Mutex
+				estGo := map[string]bool{}
 				simSetHook(func(point string, c any, arg any) {
-					if r, ok := arg.(hrpc.RegionInfo); ok && point == "establish.dialed" && bytes.HasPrefix(r.Name(), []byte("t,,")) {
-						ests.Add(1)
+					r, ok := arg.(hrpc.RegionInfo)
+					if !ok || !strings.HasPrefix(point, "establish.") || !bytes.HasPrefix(r.Name(), []byte("t,,")) {
+						return
 					}
+					var buf [64]byte
+					id := string(bytes.Fields(buf[:runtime.Stack(buf[:], false)])[1])
+					estMu.Lock()
+					if point == "establish.clientSet" {
+						delete(estGo, id)
+					} else {
+						estGo[id] = true
+						if k := int32(len(estGo)); k > ests.Load() {
+							ests.Store(k)
+						}
+					}
+					estMu.Unlock()
 				})
 				e.cl.Flap(regs[0], verifsim.ExcNotServing, n) // exactly the n requests below are answered "not serving"
 				for i := 0; i < n; i++ {
@@ -607,7 +628,7 @@ func TestVerifRequestLoop(t *testing.T) {
 				gateOn.Store(false)
 				simSetRegionHook(nil)
 				if k := ests.Load(); k > 1 {
-					rep.bad("two-establishers", "%s: %d establishers ran for one outage of one region", name, k)
+					rep.bad("two-establishers", "%s: %d establishers of one region were at work at the same time", name, k)
 				}
 				finish(e, name)
 			})
